@@ -377,6 +377,13 @@ def explore(run, cuts=None, max_paths=4000):
             out = run(st)
         except Infeasible:
             out = ('infeasible', None)
+        except Unsupported:
+            # branch feasibility is decided without the defining side conditions of quotient / sqrt symbols
+            # (see State.decide); a path that left the subset is dropped when it is infeasible with them
+            if st._full().check() == z3.unsat:
+                out = ('infeasible', None)
+            else:
+                raise
         for i in range(len(script), len(st.decisions)):
             work.append(st.decisions[:i] + [not st.decisions[i]])
         n += 1
